@@ -8,7 +8,8 @@ python3 - <<'PY'
 import sys
 sys.path.insert(0, '.')
 from vt import build
-build.ensure('rel', quiet=False)
+for layer in ('rel', 'dbg', 'rel:api'):
+    build.ensure(layer, quiet=False)
 from vt import selftest
 selftest.main()
 PY
